@@ -158,7 +158,7 @@ func registerSlices() {
 	}, func(a, res, aft []Val) []hit { return expectLL(res[0], a[0].LL, "wrong-elements") })
 
 	// ------------------------------------------------------------ convert.go
-	reg("ConvertSliceToBatches", "s,n", 1, func(c *cx) []Val {
+	reg("ConvertSliceToBatches", "s,nb", 1, func(c *cx) []Val {
 		return r1(VLL(c.outLL(collection.ConvertSliceToBatches(c.S(0), c.I(1)))))
 	}, func(a, res, aft []Val) []hit {
 		s, n, got := a[0].slice(), a[1].Z, res[0].LL
@@ -310,29 +310,47 @@ func registerSlices() {
 		return false
 	}
 	reg("InSlice", "s,v,k", 1, func(c *cx) []Val { return r1(VB(collection.InSlice(c.S(0), c.Z(1), cmpk(c.Z(2))))) },
-		func(a, res, aft []Val) []hit { return expectB(res[0], member(a[0].L, a[1].Z, cmpk(a[2].Z)), "wrong-verdict") })
+		func(a, res, aft []Val) []hit {
+			return expectB(res[0], member(a[0].L, a[1].Z, cmpk(a[2].Z)), "wrong-verdict")
+		})
 	reg("InComparableSlice", "s,v", 1, func(c *cx) []Val { return r1(VB(collection.InComparableSlice(c.S(0), c.Z(1)))) },
 		func(a, res, aft []Val) []hit { return expectB(res[0], member(a[0].L, a[1].Z, eq0), "wrong-verdict") })
 	reg("AllInSlice", "s,t,k", 1, func(c *cx) []Val { return r1(VB(collection.AllInSlice(c.S(0), c.S(1), cmpk(c.Z(2))))) },
-		func(a, res, aft []Val) []hit { return expectB(res[0], allIn(a[0].L, a[1].L, cmpk(a[2].Z)), "wrong-verdict") })
+		func(a, res, aft []Val) []hit {
+			return expectB(res[0], allIn(a[0].L, a[1].L, cmpk(a[2].Z)), "wrong-verdict")
+		})
 	reg("AllInComparableSlice", "s,t", 1, func(c *cx) []Val { return r1(VB(collection.AllInComparableSlice(c.S(0), c.S(1)))) },
 		func(a, res, aft []Val) []hit { return expectB(res[0], allIn(a[0].L, a[1].L, eq0), "wrong-verdict") })
 	reg("AnyInSlice", "s,t,k", 1, func(c *cx) []Val { return r1(VB(collection.AnyInSlice(c.S(0), c.S(1), cmpk(c.Z(2))))) },
-		func(a, res, aft []Val) []hit { return expectB(res[0], anyIn(a[0].L, a[1].L, cmpk(a[2].Z)), "wrong-verdict") })
+		func(a, res, aft []Val) []hit {
+			return expectB(res[0], anyIn(a[0].L, a[1].L, cmpk(a[2].Z)), "wrong-verdict")
+		})
 	reg("AnyInComparableSlice", "s,t", 1, func(c *cx) []Val { return r1(VB(collection.AnyInComparableSlice(c.S(0), c.S(1)))) },
 		func(a, res, aft []Val) []hit { return expectB(res[0], anyIn(a[0].L, a[1].L, eq0), "wrong-verdict") })
 	reg("InSlices", "ss,v,k", 1, func(c *cx) []Val { return r1(VB(collection.InSlices(c.SS(0), c.Z(1), cmpk(c.Z(2))))) },
-		func(a, res, aft []Val) []hit { return expectB(res[0], member(concat(a[0].LL), a[1].Z, cmpk(a[2].Z)), "wrong-verdict") })
+		func(a, res, aft []Val) []hit {
+			return expectB(res[0], member(concat(a[0].LL), a[1].Z, cmpk(a[2].Z)), "wrong-verdict")
+		})
 	reg("InComparableSlices", "ss,v", 1, func(c *cx) []Val { return r1(VB(collection.InComparableSlices(c.SS(0), c.Z(1)))) },
-		func(a, res, aft []Val) []hit { return expectB(res[0], member(concat(a[0].LL), a[1].Z, eq0), "wrong-verdict") })
+		func(a, res, aft []Val) []hit {
+			return expectB(res[0], member(concat(a[0].LL), a[1].Z, eq0), "wrong-verdict")
+		})
 	reg("AllInSlices", "ss,t,k", 1, func(c *cx) []Val { return r1(VB(collection.AllInSlices(c.SS(0), c.S(1), cmpk(c.Z(2))))) },
-		func(a, res, aft []Val) []hit { return expectB(res[0], allIn(concat(a[0].LL), a[1].L, cmpk(a[2].Z)), "wrong-verdict") })
+		func(a, res, aft []Val) []hit {
+			return expectB(res[0], allIn(concat(a[0].LL), a[1].L, cmpk(a[2].Z)), "wrong-verdict")
+		})
 	reg("AllInComparableSlices", "ss,t", 1, func(c *cx) []Val { return r1(VB(collection.AllInComparableSlices(c.SS(0), c.S(1)))) },
-		func(a, res, aft []Val) []hit { return expectB(res[0], allIn(concat(a[0].LL), a[1].L, eq0), "wrong-verdict") })
+		func(a, res, aft []Val) []hit {
+			return expectB(res[0], allIn(concat(a[0].LL), a[1].L, eq0), "wrong-verdict")
+		})
 	reg("AnyInSlices", "ss,t,k", 1, func(c *cx) []Val { return r1(VB(collection.AnyInSlices(c.SS(0), c.S(1), cmpk(c.Z(2))))) },
-		func(a, res, aft []Val) []hit { return expectB(res[0], anyIn(concat(a[0].LL), a[1].L, cmpk(a[2].Z)), "wrong-verdict") })
+		func(a, res, aft []Val) []hit {
+			return expectB(res[0], anyIn(concat(a[0].LL), a[1].L, cmpk(a[2].Z)), "wrong-verdict")
+		})
 	reg("AnyInComparableSlices", "ss,t", 1, func(c *cx) []Val { return r1(VB(collection.AnyInComparableSlices(c.SS(0), c.S(1)))) },
-		func(a, res, aft []Val) []hit { return expectB(res[0], anyIn(concat(a[0].LL), a[1].L, eq0), "wrong-verdict") })
+		func(a, res, aft []Val) []hit {
+			return expectB(res[0], anyIn(concat(a[0].LL), a[1].L, eq0), "wrong-verdict")
+		})
 	inAll := func(ss [][]int64, v int64, eq func(a, b int64) bool) bool {
 		for _, s := range ss {
 			if !member(s, v, eq) {
@@ -350,11 +368,15 @@ func registerSlices() {
 		return len(ss) > 0
 	}
 	reg("InAllSlices", "ss,v,k", 1, func(c *cx) []Val { return r1(VB(collection.InAllSlices(c.SS(0), c.Z(1), cmpk(c.Z(2))))) },
-		func(a, res, aft []Val) []hit { return expectB(res[0], inAll(a[0].LL, a[1].Z, cmpk(a[2].Z)), "wrong-verdict") })
+		func(a, res, aft []Val) []hit {
+			return expectB(res[0], inAll(a[0].LL, a[1].Z, cmpk(a[2].Z)), "wrong-verdict")
+		})
 	reg("InAllComparableSlices", "ss,v", 1, func(c *cx) []Val { return r1(VB(collection.InAllComparableSlices(c.SS(0), c.Z(1)))) },
 		func(a, res, aft []Val) []hit { return expectB(res[0], inAll(a[0].LL, a[1].Z, eq0), "wrong-verdict") })
 	reg("AnyInAllSlices", "ss,t,k", 1, func(c *cx) []Val { return r1(VB(collection.AnyInAllSlices(c.SS(0), c.S(1), cmpk(c.Z(2))))) },
-		func(a, res, aft []Val) []hit { return expectB(res[0], anyInAll(a[0].LL, a[1].L, cmpk(a[2].Z)), "wrong-verdict") })
+		func(a, res, aft []Val) []hit {
+			return expectB(res[0], anyInAll(a[0].LL, a[1].L, cmpk(a[2].Z)), "wrong-verdict")
+		})
 	reg("AnyInAllComparableSlices", "ss,t", 1, func(c *cx) []Val { return r1(VB(collection.AnyInAllComparableSlices(c.SS(0), c.S(1)))) },
 		func(a, res, aft []Val) []hit { return expectB(res[0], anyInAll(a[0].LL, a[1].L, eq0), "wrong-verdict") })
 
@@ -541,7 +563,9 @@ func registerSlices() {
 		return []Val{VZ(lo), VZ(hi)}
 	}, extLaw(kg, true, true))
 	reg("IsFirst", "s,v", 1, func(c *cx) []Val { return r1(VB(collection.IsFirst(c.S(0), c.Z(1)))) },
-		func(a, res, aft []Val) []hit { return expectB(res[0], len(a[0].L) > 0 && a[0].L[0] == a[1].Z, "wrong-verdict") })
+		func(a, res, aft []Val) []hit {
+			return expectB(res[0], len(a[0].L) > 0 && a[0].L[0] == a[1].Z, "wrong-verdict")
+		})
 
 	// ------------------------------------------------------------ loop.go (slices)
 	loopWant := func(s []int64, f func(int, int64) bool, rev bool) [][2]int64 {
@@ -562,10 +586,14 @@ func registerSlices() {
 		f, got := contk(c.Z(1), c.Z(2)), [][2]int64{}
 		collection.LoopSlice(c.S(0), func(i int, v int64) bool { got = append(got, [2]int64{int64(i), v}); return f(i, v) })
 		return r1(VP(got))
-	}, func(a, res, aft []Val) []hit { return expectP(res[0], loopWant(a[0].L, contk(a[1].Z, a[2].Z), false), "wrong-visits") })
+	}, func(a, res, aft []Val) []hit {
+		return expectP(res[0], loopWant(a[0].L, contk(a[1].Z, a[2].Z), false), "wrong-visits")
+	})
 	reg("ReverseLoopSlice", "s,n,x", 1, func(c *cx) []Val {
 		f, got := contk(c.Z(1), c.Z(2)), [][2]int64{}
 		collection.ReverseLoopSlice(c.S(0), func(i int, v int64) bool { got = append(got, [2]int64{int64(i), v}); return f(i, v) })
 		return r1(VP(got))
-	}, func(a, res, aft []Val) []hit { return expectP(res[0], loopWant(a[0].L, contk(a[1].Z, a[2].Z), true), "wrong-visits") })
+	}, func(a, res, aft []Val) []hit {
+		return expectP(res[0], loopWant(a[0].L, contk(a[1].Z, a[2].Z), true), "wrong-visits")
+	})
 }
